@@ -537,10 +537,30 @@ func checkMapKeyGuard(r *Run, prog *Program, a *Anchors, pfx string) {
 // checkScan: innermost-first resolution of local variables in the value lookup.
 func checkScan(r *Run, prog *Program, a *Anchors, pfx string) {
 	fn := a.GetValue
-	// the scan loop: header with phis (path []string, i int); condition i >= 0
+	// the scan loop: header with phis (path []string, i int); condition i >= 0 — in the lookup itself or in an unexported
+	// helper it is split into
 	var header *ssa.BasicBlock
 	var pathPhi, idxPhi *ssa.Phi
-	for _, b := range fn.Blocks {
+	cands := []*ssa.Function{fn}
+	seenF := map[*ssa.Function]bool{fn: true}
+	for i := 0; i < len(cands); i++ {
+		for _, b := range cands[i].Blocks {
+			for _, ins := range b.Instrs {
+				if c, ok := ins.(*ssa.Call); ok {
+					if g := c.Call.StaticCallee(); g != nil && !seenF[g] && bexprHelper(prog, a, g) {
+						seenF[g] = true
+						cands = append(cands, g)
+					}
+				}
+			}
+		}
+	}
+	var scanFn *ssa.Function
+	for _, cf := range cands {
+		if header != nil {
+			break
+		}
+	for _, b := range cf.Blocks {
 		var pp, ip *ssa.Phi
 		for _, ins := range b.Instrs {
 			phi, ok := ins.(*ssa.Phi)
@@ -557,8 +577,10 @@ func checkScan(r *Run, prog *Program, a *Anchors, pfx string) {
 		if pp != nil && ip != nil {
 			if _, ok := b.Instrs[len(b.Instrs)-1].(*ssa.If); ok {
 				header, pathPhi, idxPhi = b, pp, ip
+				scanFn = cf
 			}
 		}
+	}
 	}
 	if header == nil {
 		r.Fail("unresolved-anchor", pfx+".scan", "loop", prog.pos(fn.Pos()), "no scan loop over the local variables found in the value lookup")
@@ -594,6 +616,8 @@ func checkScan(r *Run, prog *Program, a *Anchors, pfx string) {
 	// per iteration: the name compared is the first part of the *current* path; substitution builds a fresh prefix copy
 	ps := NewPathSim(prog)
 	ps.maxVisits = 3
+	ps.MaxDepth = 4
+	ps.Inline = func(c *ssa.Function) bool { return bexprHelper(prog, a, c) && !recursive(prog, c) }
 	type cmpRec struct {
 		cur, got string
 		pos      token.Pos
@@ -601,7 +625,7 @@ func checkScan(r *Run, prog *Program, a *Anchors, pfx string) {
 	var recs []cmpRec
 	ps.OnInstr = func(f *ssa.Function, st *pstate, ins ssa.Instruction) {
 		bo, ok := ins.(*ssa.BinOp)
-		if !ok || (bo.Op != token.EQL && bo.Op != token.NEQ) || f != fn {
+		if !ok || (bo.Op != token.EQL && bo.Op != token.NEQ) || f != scanFn {
 			return
 		}
 		x, y := ps.sym(st, bo.X), ps.sym(st, bo.Y)
